@@ -130,6 +130,12 @@ def r2(ctx):
         ctx.ob(f"{adt.rsplit('::',1)[1]}.index private", bool(f) and f[0]["vis"] != "pub", f"{adt}.{fld} is public: callers could start a traversal at an arbitrary index")
 
 
+@rule("C17.R5", "the book cursor overrides no Iterator method beyond the audited next")
+def r5_overrides(ctx):
+    new = k2.unaudited_overrides(ctx.P, ["chess_lookup::BookMovesIter"])
+    ctx.ob("no unaudited Iterator override", not new, f"BookMovesIter now overrides {new}: R1 (every traversal stays inside the table) reads `next` only", sample={"audited": ["next"]})
+
+
 @rule("C17.R1", "structure: every traversal stays inside the table, links strictly decrease, nothing panics")
 def r1(ctx):
     walk(ctx, legality=False)
